@@ -11,8 +11,15 @@ func init() {
 	Register(&Spec{
 		ID: "C20", Level: "exploration",
 		Rule: "seeded stateful API fuzzing inside the simulator: every DB/Tx call with arguments from boundary-heavy domains (empty keys and buckets, '|' separators, indexes and counts -8..7 plus math.MinInt64/MaxInt64/MinInt32/MaxInt32, reversed ranges, NaN and +-Inf scores, invalid regular expressions, nil options), in arbitrary order, in transactions that also touch what they already changed, in read-only transactions, on finished transactions, after Close (Update, View, Merge, Backup, Close again), Update(nil)/View(nil), with reopens; fault-free; " +
-			"required: no call, no later Commit and no later Open panics (panics are recovered and reported with the panicking nutsdb function); non-trivial = at least 10 calls were made",
+			"one run in five is a scheduled program (2-5 tasks of transactions, optionally Merge and Backup) in which one task calls Close at a seeded point of the others' Begin/Commit paths; required: no call, no later Commit and no later Open panics (panics are recovered and reported with the panicking nutsdb function); non-trivial = at least 10 calls were made",
 		Gen: func(r *core.Rng, tier string) *prog.Program {
+			if r.Bool(0.2) {
+				// lifecycle calls racing with transactions: Close (and Merge,
+				// Backup) from one task while others are inside Begin/Commit
+				cp := gen.ConcParams{Modes: []int{0, 1, 2}, Segs: []int64{128, 256, 4096}, MinTasks: 2, MaxTasks: 5, MaxDBs: 1, MaxSteps: 3,
+					DS: []string{"kv", "list", "set", "zset"}, Close: true, Merge: r.Bool(0.4), Backup: r.Bool(0.2)}
+				return gen.Conc(r, cp)
+			}
 			p := gen.MixParams{Modes: []int{0}, Segs: []int64{128, 256, 512, 4096}, DS: []string{"kv", "list", "set", "zset"}, MinTx: 3, MaxTx: 16, MaxOps: 6,
 				Views: true, ViewWrites: true, AfterP: 0.2, Reopen: 0.1, BadEnds: 0.15, BigP: 0.05, SelfRead: true, Boundary: true, KVTTL: true, Merge: 0.05}
 			if r.Bool(0.3) {
@@ -57,6 +64,9 @@ func init() {
 			return pg
 		},
 		Exec: func(seed uint64, p *prog.Program) *RunResult {
+			if p.Tasks > 0 {
+				return lifecycleExec(seed, p)
+			}
 			r, res := seqExec(seed, p, run.Options{Deferred: true, NoModel: true})
 			calls := 0
 			for _, t := range r.Trace {
@@ -65,7 +75,49 @@ func init() {
 			res.Nontrivial = calls >= 10
 			return res
 		},
-		Classes: classes("panic", "open-panic"),
-		Assume:  []string{"fault-free: no I/O errors are injected (the simulator contributes state — closed, finished, reopened — determinism and shrinking; there is no schedule dimension)"},
+		Classes: classes("panic", "open-panic", "deadlock"),
+		Assume:  []string{"fault-free: no I/O errors are injected (the simulator contributes state — closed, finished, reopened — determinism and shrinking; the scheduled fifth of the runs adds the interleaving of Close with running transactions)"},
 	})
+}
+
+// lifecycleExec runs a scheduled program containing Close calls; only panics
+// and deadlocks are judged (what a transaction returns around a concurrent
+// Close is not part of this property).
+func lifecycleExec(seed uint64, p *prog.Program) *RunResult {
+	c := run.NewConcRunner(seed, p)
+	rng := core.NewRng(seed).Derive("sched")
+	switchP := []float64{1, 1, 0.5, 0.2}[rng.Intn(4)]
+	c.Run(rng, switchP)
+	res := &RunResult{ND: progND(p), LogHash: c.W.Log.H, Probes: c.W.Stats.Probes, Faults: c.W.Stats.Faults, IO: c.W.Stats.IOByKind, SimNS: c.W.Stats.SimAdvance}
+	for _, v := range c.Viol {
+		if v.Class == "panic" || v.Class == "deadlock" {
+			res.Viol = append(res.Viol, v)
+		}
+	}
+	if c.Sched == nil {
+		return res
+	}
+	res.Yields, res.Switches = c.W.Stats.Yields, c.W.Stats.Switches
+	res.Schedules = schedHash(c.Sched.Trace)
+	res.Trace = c.Sched.Trace
+	if c.Sched.Capped {
+		res.Inconcl++
+		return res
+	}
+	closedDuring := false
+	for _, a := range c.Hist {
+		if a.Kind != prog.SClose {
+			continue
+		}
+		for _, b := range c.Hist {
+			if b.Kind != prog.SClose && b.DB == a.DB && a.Invoke < b.Return && b.Invoke < a.Return {
+				closedDuring = true
+			}
+		}
+	}
+	if closedDuring {
+		res.Probes["close-overlapped-a-call"]++
+	}
+	res.Nontrivial = len(c.Hist) >= 3
+	return res
 }
